@@ -2,6 +2,7 @@ import CogentModel.Json
 import CogentModel.Model.Optimiser
 import CogentModel.Model.ScopedRules
 import CogentModel.Model.OptimiserScopedProj
+import CogentModel.Model.OptGenClamp
 open CogentModel CogentModel.Optimiser
 
 /-- objective values: extended rationals -/
@@ -168,7 +169,12 @@ def handle (cmd : String) (j : J) : Except String J :=
       | _, _ => false
     let v : List (Coord EY) := (xs.zip (lo.zip hi)).map fun t => { x := .fin t.1, lo := t.2.1, hi := t.2.2 }
     let w := clampStart EY.lt close v
-    pure (J.obj [("x", J.arr (w.map fun c => c.x.toJ)), ("in_bounds", J.bool (inBounds EY.lt w))])
+    -- `clampX` = the start vector of the TRANSLATED `Calculator.optimise` (Proofs/OptGen.lean: `calc_optimise_eq`), evaluated on
+    -- the list environment whose array operations model numpy's boolean masks (Props/C16Clamp.lean: equal to `clampStart`)
+    let env := OptGenClamp.listEnv EY.lt close (v.map (·.x)) (v.map (·.lo)) (v.map (·.hi))
+    let genX : J := J.arr ((OptGenProofs.clampX env).rep.map EY.toJ)
+    pure (J.obj [("x", J.arr (w.map fun c => c.x.toJ)), ("in_bounds", J.bool (inBounds EY.lt w)),
+                 ("gen_x", genX)])
   | "mapping" => do
     let rich ← parseCoords (← j.get "rich")
     let simple ← parseCoords (← j.get "simple")
